@@ -52,6 +52,9 @@ proof fn lemma_pcrel_targets_label(orig: u16, n: u16, l: u16, bits: int)
     assert(p2(9) == 512 && p2(10) == 1024 && p2(11) == 2048 && p2(8) == 256);
     assert(-p2(bits - 1) <= d < p2(bits - 1));
     assert(f as int == (if d >= 0 { d } else { d + p2(bits) }));
+    assert(p2(bits) == 2 * p2(bits - 1));
+    assert(0 <= f as int && (f as int) < p2(bits));
+    vstd::arithmetic::div_mod::lemma_small_mod(f as nat, p2(bits) as nat);
     assert((f as int) % p2(bits) == f as int);
     assert(sext(f, bits) as int == (if d >= 0 { d } else { d + 0x10000 }));
     let m = (l as int - n as int - 1) % 0x10000;
